@@ -334,19 +334,21 @@ def x_optpart(p):
     rt = robotools()
 
     rows, cols = p.get("rows", 4), p.get("cols", 2)
+    drows = p.get("drows", rows)
 
     def mk(trough, name):
         # a trough is a trough whatever its number of virtual rows (also one); a plate is a plate also with a single row
+        rr = drows if name == "d" else rows
         if trough:
-            return rt.Trough(name, rows, cols, min_volume=0, max_volume=10)
-        return rt.Labware(name, rows, cols, min_volume=0, max_volume=10)
+            return rt.Trough(name, rr, cols, min_volume=0, max_volume=10)
+        return rt.Labware(name, rr, cols, min_volume=0, max_volume=10)
 
     exc, res = None, ""
     try:
         res = optimize_partition_by(mk(p["st"], "s"), mk(p["dt"], "d"), p["mode"], p.get("label"))
     except Exception as e:  # noqa
         exc = e
-    return {"fn": "optpart", "id": f"{p['st']}/{p['dt']}/{p['mode']} {rows}x{cols}", "st": bool(p["st"]), "dt": bool(p["dt"]), "mode": p["mode"],
+    return {"fn": "optpart", "id": f"{p['st']}/{p['dt']}/{p['mode']} {rows}x{cols}" + (f"->{drows}" if drows != rows else ""), "st": bool(p["st"]), "dt": bool(p["dt"]), "mode": p["mode"],
             "out": outcome_class(exc), "res": res if isinstance(res, str) else "?"}
 
 
@@ -523,6 +525,14 @@ def x_ctor(p):
             elif init.get("order") == "T":
                 iv = np.array(iv.T.tolist()).T   # a transposed view of a per-column table
     names = p.get("names")
+    if names is not None and kind != "trough":
+        fixed = []
+        for w, n in names["wells"]:
+            if isinstance(n, str) and n.startswith("@default@"):
+                rr, cc = (int(t) for t in n[len("@default@"):].split(","))
+                n = f"{p.get('name', 'L')}.{wid(rr, cc)}"
+            fixed.append([w, n])
+        names = dict(names, wells=fixed)
     exc, obj = None, None
     try:
         if kind == "trough":
